@@ -28,11 +28,41 @@ pub struct Scn {
     /// the output path already holds a file of the input's size (a second run onto the same name)
     #[serde(default)]
     pub prior_output: bool,
+    /// decryption fed through a named pipe that stays open: before the end of input is signalled, the
+    /// output file must already hold all but the last few chunks (incremental output, observed from outside)
+    #[serde(default)]
+    pub incremental: bool,
+    /// encryption of a sparse multi-GiB file to /dev/null (thorough tier): only exit status and peak RSS
+    #[serde(default)]
+    pub sparse_gib: u64,
 }
 
 pub struct B7;
 
 const BASE_LEN: usize = 1 << 20;
+
+fn run_sparse(s: &Scn, gib: u64) -> Finished {
+    let w = world(s.seed % 4);
+    let sb = Sandbox::new("b7");
+    let spec = |i: usize, p: bool| KeySpec { name: w.names[i].clone(), sk: w.sks[i], password: if p { Some(w.pws[i].clone()) } else { None }, salt: w.salts[i] };
+    sb.write("keyring.txt", keyring_text(&[spec(0, true), spec(1, true)]).as_bytes());
+    if let Ok(f) = std::fs::File::create(sb.dir.join("input.bin")) {
+        let _ = f.set_len(gib << 30);
+    }
+    let mut args: Vec<String> = if s.op == Op::Encrypt {
+        vec!["encrypt".into(), "-t".into(), w.names[1].clone(), "-f".into(), w.names[0].clone(), "-k".into(), "keyring.txt".into()]
+    } else {
+        vec!["password".into(), "encrypt".into()]
+    };
+    args.extend(["--env-pass".into(), "input.bin".into(), "-o".into(), "/dev/null".into()]);
+    let refs: Vec<&str> = args.iter().map(|a| a.as_str()).collect();
+    let pw = if s.op == Op::Encrypt { w.pws[0].clone() } else { w.file_pw.clone() };
+    let mut inv = Invocation::new(&refs).env("KESTREL_PASSWORD", &pw);
+    inv.entropy_seed = Some(s.seed ^ 0x77);
+    inv.timeout_s = 900;
+    inv.sample_rss = true;
+    run(&sb, &inv)
+}
 
 fn run_one(s: &Scn, len: usize) -> (Finished, bool, String) {
     let w = world(s.seed % 4);
@@ -40,7 +70,13 @@ fn run_one(s: &Scn, len: usize) -> (Finished, bool, String) {
     let mut r = Rng::new(s.seed ^ 0xB7);
     let (e, payload) = (r.arr32(), r.arr32());
     let fsalt = Rng::new(s.seed % 4).arr32();
-    let pt = crate::rng::fill(len, s.seed ^ 0xda7a);
+    // content classes as everywhere else (random, zeros, 0xFF, header-like, text); runs that watch the
+    // output grow use zeros half of the time (sparse-file tricks key on them)
+    let mut fs = s.seed ^ 0xda7a;
+    if s.incremental && s.seed & 16 == 0 {
+        fs = (fs & !7) | 4;
+    }
+    let pt = crate::ops::Plain { len, fill_seed: fs }.bytes();
     let sb = Sandbox::new("b7");
     let spec = |i: usize, p: bool| KeySpec { name: w.names[i].clone(), sk: w.sks[i], password: if p { Some(w.pws[i].clone()) } else { None }, salt: w.salts[i] };
     sb.write("keyring.txt", keyring_text(&[spec(0, true), spec(1, true)]).as_bytes());
@@ -74,6 +110,14 @@ fn run_one(s: &Scn, len: usize) -> (Finished, bool, String) {
         _ => w.file_pw.clone(),
     };
     let mut inv = Invocation::new(&refs).env("KESTREL_PASSWORD", &pw);
+    let incremental = s.incremental && matches!(s.op, Op::Decrypt | Op::PassDecrypt) && s.in_file && s.out_opt && len > 8 * 65536;
+    if incremental {
+        // the ciphertext arrives through a named pipe; the file argument is that pipe
+        let data = sb.read("input.bin").unwrap_or_default();
+        let _ = std::fs::remove_file(sb.dir.join("input.bin"));
+        inv.fifo = Some(("input.bin".into(), data));
+        inv.watch_before_eof = Some(("output.bin".into(), (len - 4 * 65536) as u64));
+    }
     if !s.in_file {
         inv.stdin = Stdin::File("input.bin".into());
     }
@@ -124,11 +168,34 @@ impl Family for B7 {
             _ => Op::PassDecrypt,
         };
         let sizes: &[usize] = if tier == Tier::Quick { &[24 << 20, 48 << 20] } else { &[16 << 20, 64 << 20, 128 << 20, 256 << 20] };
-        Scn { op, in_file: m & 4 == 4, out_opt: m & 8 == 8, len: *rng.pick(sizes) + rng.usize_below(3), seed: rng.next_u64(), prior_output: rng.chance(1, 2) }
+        // thorough tier: a few sparse multi-GiB encryptions
+        if tier == Tier::Thorough && idx >= 16 && idx < 20 {
+            return Scn { op: if idx % 2 == 0 { Op::Encrypt } else { Op::PassEncrypt }, in_file: true, out_opt: true, len: 0, seed: rng.next_u64(), prior_output: false, incremental: false, sparse_gib: 8 };
+        }
+        let incremental = m & 12 == 12 && m & 1 == 1;
+        Scn { op, in_file: m & 4 == 4, out_opt: m & 8 == 8, len: *rng.pick(sizes) + rng.usize_below(3), seed: rng.next_u64(), prior_output: !incremental && rng.chance(1, 2), incremental, sparse_gib: 0 }
     }
     fn execute(&self, s: &Scn) -> RunOut {
         let mut out = RunOut::default();
         out.props = vec!["C11"];
+        if s.sparse_gib > 0 {
+            let (base, _, _) = run_one(&Scn { sparse_gib: 0, ..s.clone() }, BASE_LEN);
+            let big = run_sparse(s, s.sparse_gib);
+            let what = format!("{:?} of a sparse {} GiB file to /dev/null", s.op, s.sparse_gib);
+            if big.status != Status::Exit(0) {
+                out.violations.push(viol("C11", "cli_stream_failed", format!("{}: {:?} {}", what, big.status, big.stderr_text().chars().take(200).collect::<String>())));
+            }
+            if base.max_rss_kib > 0 && big.max_rss_kib > base.max_rss_kib.max(48 * 1024) + 8 * 1024 {
+                out.violations.push(viol("C11", "cli_memory_grows_with_input", format!("{}: peak RSS {} KiB, {} KiB for 1 MiB", what, big.max_rss_kib, base.max_rss_kib)));
+            }
+            out.trace_hash = crate::rng::fnv64(format!("{:?}", big.status).as_bytes());
+            out.steps = 2;
+            out.count("probe.cli_bytes_streamed", s.sparse_gib << 30);
+            out.count("probe.sparse_multi_gib_runs", 1);
+            out.signature = format!("b7|{:?}|sparse{}", s.op, s.sparse_gib);
+            out.nontrivial = true;
+            return out;
+        }
         let (base, base_ok, base_why) = run_one(s, BASE_LEN);
         let (big, big_ok, big_why) = run_one(s, s.len);
         let what = format!("{:?} {} {} len={}", s.op, if s.in_file { "file-arg" } else { "stdin" }, if s.out_opt { "-o" } else { "stdout" }, s.len);
@@ -137,6 +204,12 @@ impl Family for B7 {
         }
         if big.status != Status::Exit(0) || !big_ok {
             out.violations.push(viol("C11", "cli_stream_failed", format!("{}: {:?} {} {}", what, big.status, big_why, big.stderr_text().chars().take(200).collect::<String>())));
+        }
+        if let Some((ok, size)) = big.grew_before_eof {
+            out.count("probe.incremental_output_observed", 1);
+            if !ok {
+                out.violations.push(viol("C11", "cli_output_not_incremental", format!("{}: all {} ciphertext bytes had been consumed and 15 s passed, but the output file held only {} of {} plaintext bytes before the end of input was signalled", what, s.len, size, s.len)));
+            }
         }
         // peak RSS independent of the input length (8 MiB of slack for allocator and page-cache noise)
         // The sampled VmHWM of a 0.1 s baseline can miss its own scrypt peak (32 MiB) on a loaded
